@@ -1,5 +1,7 @@
 import Splipy.Lemmas.C13Arc
 import Splipy.Lemmas.C13Place
+import Splipy.Lemmas.C13Spline
+import Splipy.Lemmas.C13Real
 
 /-!
 # Property C13 — primitive factories produce the exact shapes they name, placed as requested
@@ -117,70 +119,142 @@ theorem C13_circle_p2C0 (w : K) (hw : w ^ 2 = 1 / 2) (j : ℕ) (hj : j < 4) :
   · refine ⟨0, -1, w, -w, 1, 0, rfl, rfl, rfl, by norm_num, by norm_num, rfl, by norm_num, rfl, fun t => ?_⟩
     unfold bern2; linear_combination (4 * t ^ 2 * (t - 1) ^ 2) * hw
 
-/-- **Full circle, `type='p4C1'` (partial).**  With `s2² = 2`, span `j` of the literal 12-point net
-has the Bézier points `b0 = (d0+d1)/2, b1 = d1, b2 = d2, b3 = d3, b4 = (d3+d4)/2`
-(`d_a` = control point `3j+a mod 12`); they satisfy `X² + Y² = W²` identically in the parameter,
-span 0 starts at `(1,0)` with weight 1 and each span ends where the next one starts, a quarter
-turn further.
-*Missing for the full statement:* the identification of the order-5 B-spline span with triple
-knots (`…,k−1,k,k,k,k+1,k+1,k+1,k+2,…`) with this Bézier form (knot insertion at `k`, `k+1`, each
-splitting `d0,d1` resp. `d3,d4` at their mid-point) is used, not proved here. -/
-theorem C13_circle_p4C1_partial (s2 : K) (h : s2 ^ 2 = 2) (j : ℕ) (hj : j < 4) :
-    ∃ x0 y0 x1 y1 x2 y2 x3 y3 x4 y4 : K,
-      (circleNetP4 s2).getD ((3 * j) % 12) [] = [x0, y0, 1] ∧
-      (circleNetP4 s2).getD ((3 * j + 1) % 12) [] = [x1, y1, 1] ∧
-      (circleNetP4 s2).getD ((3 * j + 2) % 12) [] = [x2, y2, 2 * s2 / 3] ∧
-      (circleNetP4 s2).getD ((3 * j + 3) % 12) [] = [x3, y3, 1] ∧
-      (circleNetP4 s2).getD ((3 * j + 4) % 12) [] = [x4, y4, 1] ∧
-      ((x0 + x1) / 2, (y0 + y1) / 2) =
-        (match j with | 0 => (1, 0) | 1 => (0, 1) | 2 => (-1, 0) | _ => ((0 : K), (-1 : K))) ∧
-      (x3 + x4) / 2 = -((y0 + y1) / 2) ∧ (y3 + y4) / 2 = (x0 + x1) / 2 ∧
-      ∀ t, (bern4 ((x0 + x1) / 2) x1 x2 x3 ((x3 + x4) / 2) t) ^ 2
-          + (bern4 ((y0 + y1) / 2) y1 y2 y3 ((y3 + y4) / 2) t) ^ 2
-          = (bern4 1 1 (2 * s2 / 3) 1 1 t) ^ 2 := by
+/-- **Full circle, `type='p4C1'`, as a B-spline curve.**  With `s2² = 2` and `pi > 0`: for the basis
+`BSplineBasis(5, [-1,-1,0,0,0,1,1,1,…,5,5]·π/2, periodic=1)` of the factory and its literal 12-point
+net (coefficients wrap modulo 12 over the 14 basis functions, as the periodic evaluation does), the
+homogeneous curve `(X, Y, W)(t) = Σ_i cp[i mod 12]·B_{i,4}(t)` (`B` = Cox–de Boor, either side)
+satisfies `X(t)² + Y(t)² = W(t)²` for every `t` of the parameter domain `[0, 2π)` resp. `(0, 2π]`
+(the four spans `[jπ/2, (j+1)π/2]`).
+The proof identifies each order-5 span with triple knots with its quartic Bézier form
+`((d0+d1)/2, d1, d2, d3, (d3+d4)/2)` (`splineVal_triple4`, from the Cox–de Boor recursion) and
+uses the polynomial identity `p4_span_identity`. -/
+theorem C13_circle_p4C1 (pi s2 : K) (hpi : 0 < pi) (h2 : s2 ^ 2 = 2) (sd : Side) (j : ℕ) (hj : j < 4)
+    (t : K) (ht : sd.mem ((j : K) * (pi / 2)) ((j : K) * (pi / 2) + pi / 2) t) :
+    (splineVal sd ({ order := 5, knots := (circleKnotsP4 pi).toArray, periodic := 1 } : Basis K).kn 4 14
+        (netComp (circleNetP4 s2) 0) t) ^ 2
+    + (splineVal sd ({ order := 5, knots := (circleKnotsP4 pi).toArray, periodic := 1 } : Basis K).kn 4 14
+        (netComp (circleNetP4 s2) 1) t) ^ 2
+    = (splineVal sd ({ order := 5, knots := (circleKnotsP4 pi).toArray, periodic := 1 } : Basis K).kn 4 14
+        (netComp (circleNetP4 s2) 2) t) ^ 2 := by
   have hs : s2 ≠ 0 := by
-    intro h0; rw [h0] at h; norm_num at h
-  have key := p4_span_identity s2
-  have e1 : ((1 : K) + 1) / 2 = 1 := by norm_num
-  have e2 : (-(1 / 2 / s2) + 1 / 2 / s2) / 2 = 0 := by ring
-  have e3 : ((1 / 2 / s2) + -(1 / 2 / s2)) / 2 = 0 := by ring
-  have e4 : ((-1 : K) + -1) / 2 = -1 := by norm_num
+    intro h0; rw [h0] at h2; norm_num at h2
+  have hh : (0 : K) < pi / 2 := by positivity
+  have hτ := p4Knot_mono (pi / 2) hh
+  have hk : ∀ c, splineVal sd ({ order := 5, knots := (circleKnotsP4 pi).toArray, periodic := 1 } : Basis K).kn 4 14 c t
+      = splineVal sd (p4Knot (pi / 2)) 4 14 c t := fun c =>
+    splineVal_congr_knots sd _ _ 4 14 c t (fun k hk => kn_circleP4 pi k (by omega))
+  rw [hk, hk, hk]
+  have hv : ∀ c, splineVal sd (p4Knot (pi / 2)) 4 14 c t =
+      bern4 ((c (3*j) + c (3*j+1)) / 2) (c (3*j+1)) (c (3*j+2)) (c (3*j+3)) ((c (3*j+3) + c (3*j+4)) / 2)
+        ((t - (j : K) * (pi / 2)) / (pi / 2)) := by
+    intro c
+    apply splineVal_triple4 sd (p4Knot (pi / 2)) hτ (3*j) 14 c ((j : K) * (pi / 2)) (pi / 2) t hh
+      <;> first
+        | exact ht
+        | omega
+        | (interval_cases j <;> simp [p4Knot] <;> ring)
+  rw [hv, hv, hv]
   interval_cases j
-  · refine ⟨1, -(1 / 2 / s2), 1, 1 / 2 / s2, 1 / 6 * (4 * s2 - 1), 1 / 6 * (4 * s2 - 1), 1 / 2 / s2, 1,
-      -(1 / 2 / s2), 1, rfl, rfl, rfl, rfl, rfl, ?_, ?_, ?_, fun t => ?_⟩
-    · simp [e1]
-    · ring
-    · ring
-    · rw [e1, e2, e3]
-      have := key t h hs
-      simpa using this
-  · refine ⟨1 / 2 / s2, 1, -(1 / 2 / s2), 1, -(1 / 6 * (4 * s2 - 1)), 1 / 6 * (4 * s2 - 1), -1, 1 / 2 / s2,
-      -1, -(1 / 2 / s2), rfl, rfl, rfl, rfl, rfl, ?_, ?_, ?_, fun t => ?_⟩
-    · simp [e1]
-    · ring
-    · ring
-    · rw [e1, e3, e4]
-      have := key t h hs
-      unfold bern4 at this ⊢
-      linear_combination this
-  · refine ⟨-1, 1 / 2 / s2, -1, -(1 / 2 / s2), -(1 / 6 * (4 * s2 - 1)), -(1 / 6 * (4 * s2 - 1)), -(1 / 2 / s2), -1,
-      1 / 2 / s2, -1, rfl, rfl, rfl, rfl, rfl, ?_, ?_, ?_, fun t => ?_⟩
-    · simp [e4]
-    · ring
-    · ring
-    · rw [e4, e2, e3]
-      have := key t h hs
-      unfold bern4 at this ⊢
-      linear_combination this
-  · refine ⟨-(1 / 2 / s2), -1, 1 / 2 / s2, -1, 1 / 6 * (4 * s2 - 1), -(1 / 6 * (4 * s2 - 1)), 1, -(1 / 2 / s2),
-      1, 1 / 2 / s2, rfl, rfl, rfl, rfl, rfl, ?_, ?_, ?_, fun t => ?_⟩
-    · simp [e4]
-    · ring
-    · ring
-    · rw [e1, e2, e4]
-      have := key t h hs
-      unfold bern4 at this ⊢
-      linear_combination this
+  all_goals simp only [netComp, circleNetP4, List.length_cons, List.length_nil]
+  all_goals norm_num
+  · exact p4_span_identity s2 _ h2 hs
+  · rw [bern4_negA, add_comm]; exact p4_span_identity s2 _ h2 hs
+  · rw [bern4_negA, bern4_negB]; exact p4_span_identity s2 _ h2 hs
+  · rw [bern4_negB, add_comm]; exact p4_span_identity s2 _ h2 hs
+
+/-- **Full circle, `type='p2C0'`, as a B-spline curve**: the same statement for the basis
+`BSplineBasis(3, [-1,0,0,1,1,…,4,4,5]·π/2, periodic=0)` and the literal 8-point net (`w² = 1/2`);
+each span has knots of multiplicity two at both ends, so the three quadratic B-splines living on
+it are the Bernstein polynomials (`B2_bezier`). -/
+theorem C13_circle_p2C0_spline (pi w : K) (hpi : 0 < pi) (hw : w ^ 2 = 1 / 2) (sd : Side) (j : ℕ) (hj : j < 4)
+    (t : K) (ht : sd.mem ((j : K) * (pi / 2)) ((j : K) * (pi / 2) + pi / 2) t) :
+    (splineVal sd ({ order := 3, knots := (circleKnotsP2 pi).toArray, periodic := 0 } : Basis K).kn 2 9
+        (netComp (circleNetP2 w) 0) t) ^ 2
+    + (splineVal sd ({ order := 3, knots := (circleKnotsP2 pi).toArray, periodic := 0 } : Basis K).kn 2 9
+        (netComp (circleNetP2 w) 1) t) ^ 2
+    = (splineVal sd ({ order := 3, knots := (circleKnotsP2 pi).toArray, periodic := 0 } : Basis K).kn 2 9
+        (netComp (circleNetP2 w) 2) t) ^ 2 := by
+  have hh : (0 : K) < pi / 2 := by positivity
+  have hτ := p2Knot_mono (pi / 2) hh
+  have hk : ∀ c, splineVal sd ({ order := 3, knots := (circleKnotsP2 pi).toArray, periodic := 0 } : Basis K).kn 2 9 c t
+      = splineVal sd (p2Knot (pi / 2)) 2 9 c t := fun c =>
+    splineVal_congr_knots sd _ _ 2 9 c t (fun k hk => kn_circleP2 pi k (by omega))
+  rw [hk, hk, hk]
+  have hv : ∀ c, splineVal sd (p2Knot (pi / 2)) 2 9 c t =
+      bern2 (c (2*j)) (c (2*j+1)) (c (2*j+2))
+        ((t - (j : K) * (pi / 2)) / ((j : K) * (pi / 2) + pi / 2 - (j : K) * (pi / 2))) := by
+    intro c
+    apply splineVal_bezier2 sd (p2Knot (pi / 2)) hτ (2*j) 9 c ((j : K) * (pi / 2)) ((j : K) * (pi / 2) + pi / 2) t
+      <;> first
+        | exact ht
+        | omega
+        | linarith
+        | (interval_cases j <;> simp [p2Knot] <;> ring)
+  rw [hv, hv, hv]
+  generalize (t - (j : K) * (pi / 2)) / ((j : K) * (pi / 2) + pi / 2 - (j : K) * (pi / 2)) = u
+  interval_cases j
+  all_goals simp only [netComp, circleNetP2, List.length_cons, List.length_nil]
+  all_goals norm_num
+  all_goals unfold bern2
+  all_goals linear_combination (4 * u ^ 2 * (u - 1) ^ 2) * hw
+
+
+/-- **`circle_segment` as a B-spline curve** (`θ > 0`, `n ≥ 1` spans).  For the basis
+`BSplineBasis(3, [0,0,0,1,1,…,n,n,n]/n·θ)` and the net `arcNet r cd sd n` of the factory, on the
+`j`-th knot span the three coordinate splines `Σ_i cp[i]·B_{i,2}(t)` are the Bernstein combinations
+of the control points `2j, 2j+1, 2j+2` in the local parameter `u = (t − t_j)/(t_{j+1} − t_j)` —
+exactly the spans treated in `C13_arc_on_circle`; consequently `X(t)² + Y(t)² = r²·W(t)²` for every
+`t` in the domain. -/
+theorem C13_arc_spline (r cd sd theta : K) (n : ℕ) (hn : 0 < n) (hθ : 0 < theta) (hd : cd ^ 2 + sd ^ 2 = 1)
+    (s : Side) (j : ℕ) (hj : j < n) (t : K)
+    (ht : s.mem ((j : K) / n * theta) (((j + 1 : ℕ) : K) / n * theta) t) :
+    let τ := ({ order := 3, knots := (arcKnots theta n).toArray, periodic := -1 } : Basis K).kn
+    let u := (t - (j : K) / n * theta) / (((j + 1 : ℕ) : K) / n * theta - (j : K) / n * theta)
+    splineVal s τ 2 (2 * n + 1) (netComp (arcNet r cd sd n) 0) t
+      = bern2 (arcX r cd sd (2 * j)) (arcX r cd sd (2 * j + 1)) (arcX r cd sd (2 * j + 2)) u ∧
+    splineVal s τ 2 (2 * n + 1) (netComp (arcNet r cd sd n) 1) t
+      = bern2 (arcY r cd sd (2 * j)) (arcY r cd sd (2 * j + 1)) (arcY r cd sd (2 * j + 2)) u ∧
+    splineVal s τ 2 (2 * n + 1) (netComp (arcNet r cd sd n) 2) t
+      = bern2 (arcW cd (2 * j)) (arcW cd (2 * j + 1)) (arcW cd (2 * j + 2)) u ∧
+    (splineVal s τ 2 (2 * n + 1) (netComp (arcNet r cd sd n) 0) t) ^ 2
+      + (splineVal s τ 2 (2 * n + 1) (netComp (arcNet r cd sd n) 1) t) ^ 2
+      = r ^ 2 * (splineVal s τ 2 (2 * n + 1) (netComp (arcNet r cd sd n) 2) t) ^ 2 := by
+  intro τ u
+  have hτ := arcKnotFn_mono theta n hn hθ
+  have hk : ∀ c, splineVal s τ 2 (2 * n + 1) c t = splineVal s (arcKnotFn theta n) 2 (2 * n + 1) c t := fun c =>
+    splineVal_congr_knots s _ _ 2 (2 * n + 1) c t (fun k hk => kn_arc theta n k (by omega))
+  have hn' : (0 : K) < n := by exact_mod_cast hn
+  have hab : (j : K) / n * theta < ((j + 1 : ℕ) : K) / n * theta := by
+    apply mul_lt_mul_of_pos_right _ hθ
+    apply div_lt_div_of_pos_right _ hn'
+    exact_mod_cast Nat.lt_succ_self j
+  have kf : ∀ i m, min n ((i - 1) / 2) = m → arcKnotFn theta n i = (m : K) / n * theta := by
+    intro i m h; unfold arcKnotFn; rw [h]
+  have hv : ∀ c, splineVal s (arcKnotFn theta n) 2 (2 * n + 1) c t
+      = bern2 (c (2 * j)) (c (2 * j + 1)) (c (2 * j + 2)) u := by
+    intro c
+    apply splineVal_bezier2 s (arcKnotFn theta n) hτ (2 * j) (2 * n + 1) c _ _ t hab
+    · exact kf _ _ (by omega)
+    · exact kf _ _ (by omega)
+    · exact kf _ _ (by omega)
+    · exact kf _ _ (by omega)
+    · exact ht
+    · omega
+  obtain ⟨a0, b0, c0⟩ := netComp_arc r cd sd n (2 * j) (by omega)
+  obtain ⟨a1, b1, c1⟩ := netComp_arc r cd sd n (2 * j + 1) (by omega)
+  obtain ⟨a2, b2, c2⟩ := netComp_arc r cd sd n (2 * j + 2) (by omega)
+  have eX : splineVal s τ 2 (2 * n + 1) (netComp (arcNet r cd sd n) 0) t
+      = bern2 (arcX r cd sd (2 * j)) (arcX r cd sd (2 * j + 1)) (arcX r cd sd (2 * j + 2)) u := by
+    rw [hk, hv, a0, a1, a2]
+  have eY : splineVal s τ 2 (2 * n + 1) (netComp (arcNet r cd sd n) 1) t
+      = bern2 (arcY r cd sd (2 * j)) (arcY r cd sd (2 * j + 1)) (arcY r cd sd (2 * j + 2)) u := by
+    rw [hk, hv, b0, b1, b2]
+  have eW : splineVal s τ 2 (2 * n + 1) (netComp (arcNet r cd sd n) 2) t
+      = bern2 (arcW cd (2 * j)) (arcW cd (2 * j + 1)) (arcW cd (2 * j + 2)) u := by
+    rw [hk, hv, c0, c1, c2]
+  refine ⟨eX, eY, eW, ?_⟩
+  rw [eX, eY, eW]
+  exact (C13_arc_on_circle r cd sd n hd).2.2.2.2.1 j u
 
 /-- **Ellipse.**  Scaling the homogeneous circle point `(X, Y, W)` (`X² + Y² = W²`) by
 `(r1, r2, 1)` — what `ellipse` does to the unit circle net, and hence to every evaluated point —
@@ -320,6 +394,121 @@ theorem C13_model_nets (k : Consts K) (center normal xaxis : List K) (a : NAux K
   · intro o hdim hn hc hlen
     simp [place, flipAndMove, Obj.rotateZ, Obj.rotateY, Obj.translate, Obj.setDimension, Obj.mapPts, hdim, hn, hc,
       hlen, bind, Except.bind, pure, Except.pure]
+
+/-- **Evaluated points of a placed circle / arc.**  `placePt` is what `place` does to one homogeneous
+control point of a planar rational object (`C13_model_nets`, part 3).  Under the relations of
+`C13_placement` and `cos²α + sin²α = 1`:
+1. a homogeneous planar point `(X, Y, W)` is mapped to `(x, y, z, W)` with
+   `|(x,y,z) − W·c|² = X² + Y²` and `((x,y,z) − W·c)·n = 0`;
+2. placement is linear on homogeneous coordinates: a combination `Σ β_k·placed(p_k)` of placed
+   control points (= an evaluated point of the placed curve, `β_k` the basis function values,
+   arbitrary here) is the placed combination `placed(Σ β_k·p_k)`;
+3. hence if the unplaced homogeneous point lies on the cone `X² + Y² = r²W²` (every evaluated point
+   of `circle`, `circle_segment`: `C13_arc_on_circle`, `C13_arc_spline`, `C13_circle_p2C0_spline`,
+   `C13_circle_p4C1`) and `W ≠ 0`, the Cartesian point `(x,y,z)/W` satisfies
+   `‖· − c‖² = r²` and `(· − c)·n = 0` — for every parameter value;
+4. the image of the start point `(r, 0, 1)` (parameter 0) is `c + r·xaxis/‖xaxis‖` when the
+   requested x-axis is orthogonal to `n`;
+5. the rotation part maps `e_y` to `(n/‖n‖) × (xaxis/‖xaxis‖)`: the planar point at angle `t`,
+   `r(cos t, sin t)`, goes to `c + r(cos t·x̂ + sin t·(n̂×x̂))` — increasing angle is counter-clockwise
+   about the requested normal. -/
+theorem C13_placed_points (nx ny nz ρ N ct st cp sp ca sa c1 c2 c3 : K)
+    (hρ : ρ ^ 2 = nx ^ 2 + ny ^ 2) (hNN : N ^ 2 = ρ ^ 2 + nz ^ 2) (hN : N ≠ 0)
+    (hθ : ρ ≠ 0 → ct * ρ = nx ∧ st * ρ = ny) (hθ1 : ct ^ 2 + st ^ 2 = 1)
+    (hcp : cp * N = nz) (hsp : sp * N = ρ) (ha : ca ^ 2 + sa ^ 2 = 1) :
+    (∀ X Y W : K, ∃ x y z : K,
+        placePt ca sa ct st cp sp [c1, c2, c3] [X, Y, W] = [x, y, z, W] ∧
+        (x - c1 * W) ^ 2 + (y - c2 * W) ^ 2 + (z - c3 * W) ^ 2 = X ^ 2 + Y ^ 2 ∧
+        (x - c1 * W) * nx + (y - c2 * W) * ny + (z - c3 * W) * nz = 0) ∧
+    (∀ β0 β1 β2 X0 Y0 W0 X1 Y1 W1 X2 Y2 W2 : K,
+        lin3 β0 β1 β2 (placePt ca sa ct st cp sp [c1, c2, c3] [X0, Y0, W0])
+            (placePt ca sa ct st cp sp [c1, c2, c3] [X1, Y1, W1])
+            (placePt ca sa ct st cp sp [c1, c2, c3] [X2, Y2, W2])
+          = placePt ca sa ct st cp sp [c1, c2, c3]
+              [β0 * X0 + β1 * X1 + β2 * X2, β0 * Y0 + β1 * Y1 + β2 * Y2, β0 * W0 + β1 * W1 + β2 * W2]) ∧
+    (∀ r X Y W x y z : K, X ^ 2 + Y ^ 2 = r ^ 2 * W ^ 2 → W ≠ 0 →
+        placePt ca sa ct st cp sp [c1, c2, c3] [X, Y, W] = [x, y, z, W] →
+        (x / W - c1) ^ 2 + (y / W - c2) ^ 2 + (z / W - c3) ^ 2 = r ^ 2 ∧
+        (x / W - c1) * nx + (y / W - c2) * ny + (z / W - c3) * nz = 0) ∧
+    (∀ r x y z lam : K, x * nx + y * ny + z * nz = 0 → lam ≠ 0 →
+        lam ^ 2 = ((localXVec [x, y, z] ⟨ct, st, cp, sp⟩).getD 0 0) ^ 2
+                + ((localXVec [x, y, z] ⟨ct, st, cp, sp⟩).getD 1 0) ^ 2 →
+        placePt (rotateLocalXAxis [x, y, z] ⟨ct, st, cp, sp⟩ lam).1
+                (rotateLocalXAxis [x, y, z] ⟨ct, st, cp, sp⟩ lam).2 ct st cp sp [c1, c2, c3] [r, 0, 1]
+          = [c1 + r * (x / lam), c2 + r * (y / lam), c3 + r * (z / lam), 1]) ∧
+    (∀ x y z lam : K, x * nx + y * ny + z * nz = 0 → lam ≠ 0 →
+        lam ^ 2 = ((localXVec [x, y, z] ⟨ct, st, cp, sp⟩).getD 0 0) ^ 2
+                + ((localXVec [x, y, z] ⟨ct, st, cp, sp⟩).getD 1 0) ^ 2 →
+        rotZPt ct st (rotYPt cp sp
+            (rotZPt (rotateLocalXAxis [x, y, z] ⟨ct, st, cp, sp⟩ lam).1
+                    (rotateLocalXAxis [x, y, z] ⟨ct, st, cp, sp⟩ lam).2 [0, 1, 0]))
+          = [(ny / N) * (z / lam) - (nz / N) * (y / lam), (nz / N) * (x / lam) - (nx / N) * (z / lam),
+             (nx / N) * (y / lam) - (ny / N) * (x / lam)]) := by
+  obtain ⟨hez, hrot, hx⟩ := C13_placement nx ny nz ρ N ct st cp sp hρ hNN hN hθ hθ1 hcp hsp
+  have hmain : ∀ X Y W : K, ∃ x y z : K,
+      placePt ca sa ct st cp sp [c1, c2, c3] [X, Y, W] = [x, y, z, W] ∧
+      (x - c1 * W) ^ 2 + (y - c2 * W) ^ 2 + (z - c3 * W) ^ 2 = X ^ 2 + Y ^ 2 ∧
+      (x - c1 * W) * nx + (y - c2 * W) * ny + (z - c3 * W) * nz = 0 := by
+    intro X Y W
+    obtain ⟨x', y', z', he, hnorm, hplane⟩ := hrot (X * ca - Y * sa) (X * sa + Y * ca) 0
+    refine ⟨x' + c1 * W, y' + c2 * W, z' + c3 * W, ?_, ?_, ?_⟩
+    · simp only [placePt, rotZPt_cons, setDimPt]
+      simp only [rotYPt_cons, rotZPt_cons, List.cons.injEq, and_true] at he
+      obtain ⟨e1, e2, e3⟩ := he
+      simp [translatePt, weightOf]
+      refine ⟨by rw [← e1]; ring, by rw [← e2]; ring, by rw [← e3]; ring⟩
+    · have : (x' + c1 * W - c1 * W) ^ 2 + (y' + c2 * W - c2 * W) ^ 2 + (z' + c3 * W - c3 * W) ^ 2
+          = x' ^ 2 + y' ^ 2 + z' ^ 2 := by ring
+      rw [this, hnorm]
+      linear_combination (X ^ 2 + Y ^ 2) * ha
+    · have : (x' + c1 * W - c1 * W) * nx + (y' + c2 * W - c2 * W) * ny + (z' + c3 * W - c3 * W) * nz
+          = x' * nx + y' * ny + z' * nz := by ring
+      rw [this, hplane]; ring
+  refine ⟨hmain, ?_, ?_, ?_, ?_⟩
+  · intro β0 β1 β2 X0 Y0 W0 X1 Y1 W1 X2 Y2 W2
+    simp [placePt, setDimPt, translatePt, weightOf, lin3, List.zipWith3]
+    refine ⟨by ring, by ring, by ring⟩
+  · intro r X Y W x y z hcone hW hpl
+    obtain ⟨x2, y2, z2, he, hn, hp⟩ := hmain X Y W
+    rw [hpl] at he
+    simp only [List.cons.injEq, and_true] at he
+    obtain ⟨rfl, rfl, rfl⟩ := he
+    refine ⟨?_, ?_⟩
+    · have : (x / W - c1) ^ 2 + (y / W - c2) ^ 2 + (z / W - c3) ^ 2
+          = ((x - c1 * W) ^ 2 + (y - c2 * W) ^ 2 + (z - c3 * W) ^ 2) / W ^ 2 := by
+        field_simp
+      rw [this, hn, hcone]; field_simp
+    · have : (x / W - c1) * nx + (y / W - c2) * ny + (z / W - c3) * nz
+          = ((x - c1 * W) * nx + (y - c2 * W) * ny + (z - c3 * W) * nz) / W := by
+        field_simp
+      rw [this, hp]; simp
+  · intro r x y z lam horth hlam hl2
+    obtain ⟨he, _⟩ := hx x y z lam horth hlam hl2
+    generalize (rotateLocalXAxis [x, y, z] ⟨ct, st, cp, sp⟩ lam).1 = a' at he ⊢
+    generalize (rotateLocalXAxis [x, y, z] ⟨ct, st, cp, sp⟩ lam).2 = b' at he ⊢
+    simp only [rotYPt_cons, rotZPt_cons, List.cons.injEq, and_true] at he
+    obtain ⟨e1, e2, e3⟩ := he
+    simp [placePt, setDimPt, translatePt, weightOf]
+    refine ⟨by rw [← e1]; ring, by rw [← e2]; ring, by rw [← e3]; ring⟩
+  · intro x y z lam horth hlam hl2
+    obtain ⟨he, hnorm⟩ := hx x y z lam horth hlam hl2
+    have hp1 : cp ^ 2 + sp ^ 2 = 1 := by
+      have : (cp ^ 2 + sp ^ 2) * N ^ 2 = N ^ 2 := by
+        linear_combination (cp * N + nz) * hcp + (sp * N + ρ) * hsp - hNN
+      exact mul_right_cancel₀ (pow_ne_zero 2 hN) (by rw [this, one_mul])
+    generalize (rotateLocalXAxis [x, y, z] ⟨ct, st, cp, sp⟩ lam).1 = a' at he ⊢
+    generalize (rotateLocalXAxis [x, y, z] ⟨ct, st, cp, sp⟩ lam).2 = b' at he ⊢
+    simp only [rotYPt_cons, rotZPt_cons, List.cons.injEq, and_true] at he hez
+    obtain ⟨e1, e2, e3⟩ := he
+    obtain ⟨z1, z2, z3⟩ := hez
+    simp only [rotYPt_cons, rotZPt_cons]
+    rw [← e1, ← e2, ← e3, ← z1, ← z2, ← z3]
+    congr 1
+    · linear_combination (a' * st) * hp1
+    · congr 1
+      · linear_combination (-(a' * ct)) * hp1
+      · congr 1
+        linear_combination (-(b' * sp)) * hθ1
 
 /-! ## revolve / extrude -/
 
@@ -468,7 +657,7 @@ theorem C13_revolved_shapes (X Z H A B W r R : K) (harc : A ^ 2 + B ^ 2 = W ^ 2)
 
 /-! ## three-point arc -/
 
-/-- **Three-point arc (partial).**  `circle_segment_from_three_points` is
+/-- **Three-point arc.**  `circle_segment_from_three_points` is
 `circle_segment(θ, r, centre, w2, x0 − centre)` with the travel normal `w2 = (x0−x2)×(x1−x2)` (part 4).
 1. The centre returned by the linear solve of the model (`threePointCenter`, the system the code
    hands to `np.linalg.solve`) is equidistant from the three points and lies in their plane: it is
@@ -484,13 +673,13 @@ theorem C13_revolved_shapes (X Z H A B W r R : K) (harc : A ^ 2 + B ^ 2 = W ^ 2)
    `(s1(1−c) + s(c1−1))·ρ² = L > 0`, and therefore the angle of `x1` lies strictly between `0` and
    `θ` in the direction of travel: for `θ ≤ π` (`s ≥ 0`) `0 < s1` and `c < c1`; for `θ > π`
    (`s < 0`) `0 ≤ s1` or `c1 < c`.
-*Missing for the full statement:* that every angle between `0` and `θ` is attained by a parameter
-value of the rational quadratic spans (surjectivity of the span parametrisation onto its angle
-range; an intermediate-value statement, checked by the oracle numerically).
+That every direction strictly between `0` and `θ` is attained by a parameter value of the arc —
+so that the curve passes through `x1` — is `C13_three_points_through_x1` (explicit parameter
+`arc_span_attains`, generic field; the covering of `[0, θ]` by the spans over `ℝ`).
 *Unfixed shape:* before the repair the arc was placed about `v0 × v1`; by part 2 applied to `x1`,
 `(v0×v1)·n = s1·ρ²·L`, so that normal is anti-parallel to the travel normal exactly when `s1 < 0`
 (the arc from `x0` to `x1` exceeds a half turn) and the arc then ended at `x2` mirrored in `v0`. -/
-theorem C13_three_points_partial :
+theorem C13_three_points :
     (∀ a1 a2 a3 b1 b2 b3 c1 c2 c3 x y z : K,
         threePointCenter [a1, a2, a3] [b1, b2, b3] [c1, c2, c3] = .ok [x, y, z] →
         (a1 - x) ^ 2 + (a2 - y) ^ 2 + (a3 - z) ^ 2 = (b1 - x) ^ 2 + (b2 - y) ^ 2 + (b3 - z) ^ 2 ∧
@@ -600,3 +789,33 @@ example : ∃ a1 a2 a3 b1 b2 b3 n1 n2 n3 ρ2 L c s : ℚ,
     c * ρ2 = a1 * b1 + a2 * b2 + a3 * b3 ∧ s ^ 2 = 1 - c ^ 2 ∧
     (0 ≤ s ↔ 0 ≤ (a2 * b3 - a3 * b2) * n1 + (a3 * b1 - a1 * b3) * n2 + (a1 * b2 - a2 * b1) * n3) :=
   ⟨1, 0, 0, 0, 1, 0, 0, 0, 2, 1, 2, 0, 1, by norm_num⟩
+
+/-- **The three-point arc passes through `x1`.**  Let `θ ∈ (0, 2π)` be the angle of the arc, built
+from `n ≥ 1` spans of half-angle `dt = θ/(2n) < π` with `(cd, sd) = (cos dt, sin dt)` (the values the
+factory computes), and let `(c1, s1)` be a unit vector lying strictly between the angles `0` and
+`θ` in the sense of `C13_three_points`, part 3 (the direction of `x1 − centre` in the frame
+`x̂ = (x0 − centre)/r`, `ŷ = n̂ × x̂`).  Then there are a span `j < n` and a local parameter
+`u ∈ [0, 1]` at which the homogeneous span point of the (unplaced) arc is `r·(c1, s1)·W(u)`:
+the Cartesian point is `r·(c1, s1)`.  By `C13_placed_points` (linearity, parts 2, 4, 5) the placed
+arc then passes through `centre + r(c1·x̂ + s1·ŷ) = x1`.
+Over an arbitrary ordered field the parameter is explicit (`arc_span_attains`:
+`u = 1/2 + tan(β/2)/(2·tan(dt/2))`, `β` the angle of the target relative to the span's mid
+direction); the real numbers enter only through the covering of `[0, θ]` by the spans. -/
+theorem C13_three_points_through_x1 (r θ c1 s1 : ℝ) (n : ℕ) (hn : 0 < n) (hθ0 : 0 < θ)
+    (hθ2 : θ < 2 * Real.pi) (hdt : θ / (2 * n) < Real.pi) (h1 : c1 ^ 2 + s1 ^ 2 = 1)
+    (hb1 : 0 ≤ Real.sin θ → 0 < s1 ∧ Real.cos θ < c1)
+    (hb2 : Real.sin θ < 0 → 0 ≤ s1 ∨ c1 < Real.cos θ) :
+    ∃ j, j < n ∧ ∃ u : ℝ, 0 ≤ u ∧ u ≤ 1 ∧
+      bern2 (arcX r (Real.cos (θ / (2 * n))) (Real.sin (θ / (2 * n))) (2 * j))
+            (arcX r (Real.cos (θ / (2 * n))) (Real.sin (θ / (2 * n))) (2 * j + 1))
+            (arcX r (Real.cos (θ / (2 * n))) (Real.sin (θ / (2 * n))) (2 * j + 2)) u
+        = r * c1 * bern2 (arcW (Real.cos (θ / (2 * n))) (2 * j)) (arcW (Real.cos (θ / (2 * n))) (2 * j + 1))
+            (arcW (Real.cos (θ / (2 * n))) (2 * j + 2)) u ∧
+      bern2 (arcY r (Real.cos (θ / (2 * n))) (Real.sin (θ / (2 * n))) (2 * j))
+            (arcY r (Real.cos (θ / (2 * n))) (Real.sin (θ / (2 * n))) (2 * j + 1))
+            (arcY r (Real.cos (θ / (2 * n))) (Real.sin (θ / (2 * n))) (2 * j + 2)) u
+        = r * s1 * bern2 (arcW (Real.cos (θ / (2 * n))) (2 * j)) (arcW (Real.cos (θ / (2 * n))) (2 * j + 1))
+            (arcW (Real.cos (θ / (2 * n))) (2 * j + 2)) u := by
+  obtain ⟨φ, hφ0, hφ1, hc, hs⟩ := exists_angle_between θ c1 s1 hθ0 hθ2 h1 hb1 hb2
+  rw [← hc, ← hs]
+  exact arc_attains_real r θ φ n hn hθ0 hdt hφ0 hφ1
